@@ -11,8 +11,9 @@ ERROR awkward_NumpyArray_getitem_boolean_nonzero(
   int64_t length,
   int64_t stride) {
   int64_t k = 0;
-  for (int64_t i = 0;  i < length;  i += stride) {
-    if (fromptr[i] != 0) {
+  // 'length' items, 'stride' bytes apart; the result holds item positions
+  for (int64_t i = 0;  i < length;  i++) {
+    if (fromptr[i*stride] != 0) {
       toptr[k] = i;
       k++;
     }
